@@ -7,6 +7,7 @@ bad=0; n=0; only="${1:-}"
 while IFS=$'\t' read -r expect prop file expr why; do
   case "$expect" in \#*|"") continue;; esac
   [[ "$why" == placeholder* ]] && continue
+  if [ -n "${EXPECT:-}" ] && [ "$expect" != "$EXPECT" ]; then continue; fi
   if [ -n "$only" ] && [[ "$why" != *"$only"* ]] && [ "$prop" != "$only" ]; then continue; fi
   n=$((n+1))
   out=$(scripts/mutrun.sh "$expr" "$file" -- check "$prop" 2>&1); rc=$?
